@@ -190,3 +190,161 @@ def chi2_at(truth_logm_rows, k, logf, sig, w, valid, av, band):
         sure += np.where(badside & ~near, p, 0.0)
         maybe += np.where(near, p, 0.0)
     return obj + sure, obj + sure + maybe, res
+
+
+# --------------------------------------------------------------------------
+# C02: distance-dependent fits
+# --------------------------------------------------------------------------
+
+def grid_logm(conv, apertures_au, theta_arcsec, d_kpc):
+    """log10 of the model flux at each trial distance, from truth:
+    conv[m, a, f] interpolated linearly to theta_f * d_pc (clamped above), times (1 kpc/d)^2"""
+    n_m, n_a, n_f = conv.shape
+    out = np.zeros((n_m, len(d_kpc), n_f), LD)
+    for j, d in enumerate(d_kpc):
+        for f in range(n_f):
+            a = float(theta_arcsec[f]) * float(d) * 1000.0
+            if apertures_au is None or n_a == 1:
+                v = conv[:, 0, f]
+            else:
+                v = O.interp_aperture(apertures_au, conv[:, :, f], a)
+            out[:, j, f] = np.log10(np.asarray(v, LD) / (LD(d) * LD(d)))
+    return out
+
+
+def check_distance_grid(ctx, distances_kpc, dmin, dmax, step, wit, keyp='grid'):
+    """(a) of C02: both ends, log-uniform, spacing <= step, fewest points"""
+    d = np.asarray(distances_kpc, float)
+    n = len(d)
+    ok = True
+
+    def bad(key, what):
+        ctx.violation(keyp + ':' + key, what, dict(wit, distances=d, dmin=dmin, dmax=dmax, step=step))
+
+    if n < 1 or not np.all(np.isfinite(d)) or np.any(d <= 0):
+        bad('invalid', 'distance grid empty or not positive finite')
+        return False
+    if abs(d[0] - dmin) > 1e-12 * dmin or abs(d[-1] - dmax) > 1e-12 * dmax:
+        bad('ends', 'distance grid does not include both ends of the requested range')
+        ok = False
+    L = np.log10(dmax) - np.log10(dmin)
+    if dmin == dmax:
+        if n != 1:
+            bad('count', 'dmin == dmax must give a single distance')
+            ok = False
+        return ok
+    if n < 2:
+        bad('count', 'a non-degenerate range needs both ends')
+        return False
+    ld = np.log10(d)
+    diffs = np.diff(ld)
+    if np.any(np.abs(diffs - L / (n - 1)) > 1e-9 * step + 1e-13):
+        bad('not-log-uniform', 'trial distances are not uniform in log space')
+        ok = False
+    if L / (n - 1) > step * (1 + 1e-9):
+        bad('too-coarse', 'spacing of the distance grid exceeds the package log-distance step')
+        ok = False
+    # fewest points: with one point less the spacing would exceed the step.
+    # don't-care: L/step an integer to rounding -> n or n+1 both accepted
+    if n > 2 and L / (n - 2) <= step * (1 - 1e-9):
+        q = L / step
+        if not (abs(q - round(q)) < 1e-9 * max(1.0, q) and n - 2 == round(q)):
+            bad('not-minimal', 'distance grid has more points than needed for the step')
+            ok = False
+    return ok
+
+
+def check_fit3d(ctx, truth, valid, flux, error, info, witness, keyp='fit3d'):
+    valid = np.asarray(valid)
+    logf, sig, w = O.transform(valid, flux, error)
+    idx, ok = check_structure(ctx, truth, info, keyp)
+    if not ok:
+        return None
+    wL = np.asarray(w, LD)
+    k = truth.k
+    logm = truth.logm[idx]                                   # [rows, d, f]
+    r = np.asarray(logf, LD)[None, None, :] - logm
+    swk2 = np.sum(wL * k * k)
+    a_unc = np.sum(wL * r * k, axis=2) / swk2                # [rows, d]
+    lo, hi = LD(truth.lo), LD(truth.hi)
+    a_ref = np.clip(a_unc, lo, hi)
+    res = r - a_ref[:, :, None] * k
+    obj = np.asarray(np.sum(wL * res ** 2, axis=2), float)
+    dl = float(truth.delta)
+    band = 1e-9 + 2 * dl
+    pred = logm + a_ref[:, :, None] * k
+    sure = np.zeros(obj.shape)
+    maybe = np.zeros(obj.shape)
+    n_pen = 0
+    for j in np.where((valid == 2) | (valid == 3))[0]:
+        dd = np.asarray(pred[:, :, j] - LD(logf[j]), float)
+        p = O.penalty(float(sig[j]))
+        badside = (dd < 0) if valid[j] == 2 else (dd > 0)
+        near = np.abs(dd) <= band
+        sure += np.where(badside & ~near, p, 0.0)
+        maybe += np.where(near, p, 0.0)
+        n_pen += int(np.sum(badside & ~near))
+    rmax = float(np.max(np.abs(r[:, :, w > 0]))) if np.any(w > 0) else 0.0
+    eps_r = 1e-13 * (1 + rmax) + dl
+    ctol = np.asarray(np.sum(wL * (2 * np.abs(res) * eps_r + eps_r ** 2), axis=2), float)
+    Lb = obj + sure
+    Hb = obj + sure + maybe
+    big = Lb >= 1e29
+    Lb = np.where(big, 1e29, Lb)
+    Hb = np.where(big, np.inf, Hb)
+    chi = np.asarray(info.chi2, float)
+    sc = np.asarray(info.sc, float)
+    av = np.asarray(info.av, LD)
+    nrow = len(chi)
+
+    def wit(i, **kw):
+        d = dict(witness)
+        d.update(row=int(i), model=str(info.model_name[i]), av=float(av[i]), sc=float(sc[i]), chi2=float(chi[i]),
+                 lo=truth.lo, hi=truth.hi, tag=truth.tag, logd=truth.logd)
+        d.update(kw)
+        return d
+
+    # reported scale is log10 of a grid distance
+    jj = np.array([int(np.argmin(np.abs(truth.logd - s))) for s in sc])
+    bad = np.where(np.abs(truth.logd[jj] - sc) > 1e-12 * (1 + np.abs(sc)))[0]
+    if bad.size:
+        ctx.violation(keyp + ':scale-not-on-grid', 'reported scale is not log10(d/kpc) of a trial distance', wit(bad[0]))
+        return None
+    rows = np.arange(nrow)
+    minL = np.min(Lb, axis=1)
+    minH = np.min(Hb, axis=1)
+    tolrow = 1e-9 * np.abs(chi) + np.max(ctol, axis=1) + 1e-300
+    # chi2 is the minimum over the grid
+    bad = np.where(~((chi >= minL - tolrow) & (chi <= minH + tolrow)))[0]
+    if bad.size:
+        i = bad[0]
+        ctx.violation(keyp + ':chi2-not-grid-minimum', 'reported chi^2 is not the minimum over the distance grid',
+                      wit(i, min_lo=float(minL[i]), min_hi=float(minH[i]), tol=float(tolrow[i]),
+                          ref_best_j=int(np.argmin(Lb[i])), rep_j=int(jj[i])))
+    # ... and is attained at the reported distance
+    Lr, Hr = Lb[rows, jj], Hb[rows, jj]
+    bad = np.where(~((chi >= Lr - tolrow) & (chi <= Hr + tolrow) & (Lr <= minH + 2 * tolrow)))[0]
+    if bad.size:
+        i = bad[0]
+        ctx.violation(keyp + ':chi2-not-at-reported-distance', 'reported chi^2 / A_V / scale do not belong to the same trial distance',
+                      wit(i, chi2_at_reported_lo=float(Lr[i]), chi2_at_reported_hi=float(Hr[i]), min_hi=float(minH[i]),
+                          rep_j=int(jj[i]), tol=float(tolrow[i])))
+    # A_V = clip(optimal scaling at the reported distance)
+    gA = float(np.sum(wL * np.abs(k)) / swk2)
+    d_eff = 3 * dl + 1e-13 * (1 + rmax)
+    au = a_unc[rows, jj]
+    ar = a_ref[rows, jj]
+    tolA = 1e-12 * (1 + np.abs(au)) + d_eff * gA
+    clear_lo = au < lo - tolA
+    clear_hi = au > hi + tolA
+    interior = (au > lo + tolA) & (au < hi - tolA)
+    bad = np.where((clear_lo & (av != lo)) | (clear_hi & (av != hi)) | (interior & (np.abs(av - ar) > tolA))
+                   | ~((av >= lo) & (av <= hi)))[0]
+    if bad.size:
+        i = bad[0]
+        ctx.violation(keyp + ':av-not-clipped-optimum', 'reported A_V is not the least-squares optimum at the reported distance clipped to the range',
+                      wit(i, av_ref=float(ar[i]), av_unconstrained=float(au[i]), tolA=float(tolA[i]), rep_j=int(jj[i])))
+    nd = len(truth.logd)
+    return {'rows': nrow, 'clipped': int(np.sum(clear_lo | clear_hi)), 'interior': int(np.sum(interior)),
+            'best_first': int(np.sum(jj == 0)), 'best_last': int(np.sum(jj == nd - 1)),
+            'best_mid': int(np.sum((jj > 0) & (jj < nd - 1))), 'penalised': n_pen}
